@@ -6,6 +6,9 @@
    coherent = the excerpts and the index equal the rebuilt ones and every loaded entity is exactly
    what its ref reads as.
 
+   Saving: VCommit = BugCache.Commit (refused when nothing is staged), VCommitAsNeeded = BugCache.CommitAsNeeded (the same commit
+   when something is staged, else only entityUpdated), VIdUpd / VIdCommitAsNeeded for the identity side.
+
    variant: the repaired code is `fixed`; the other settings transcribe the code as found
    (patch numbers refer to notes/candidate-fixes.patch):
      v_index_merged  = false : MergeAll does not index merged entities               (05)
@@ -57,6 +60,9 @@ Inductive cev :=
 | VResolve (r e : nat)
 | VStage (r e : nat) (op : N)           (* any edit through the loaded BugCache *)
 | VCommit (r e : nat) (id au : N)       (* Commit of the loaded bug: its staged operations become one pack *)
+| VCommitAsNeeded (r e : nat) (id au : N)   (* CommitAsNeeded of the loaded bug (termui, bridge exporters): Commit when something is
+                                               staged, otherwise nothing is written; entityUpdated runs in both cases *)
+| VIdCommitAsNeeded (r u : nat)         (* the identity is resolved, then CommitAsNeeded *)
 | VPush (r : nat)
 | VPull (r : nat) (ims : list nat) (bms : list (nat * N * N))  (* Fetch + MergeAll; merge order as observed; ids of merge commits *)
 | VRemove (r e : nat)
@@ -68,7 +74,7 @@ Inductive cout :=
 
 Definition rep_ev (ev : cev) : nat :=
   match ev with VIdNew r _ _ | VIdUpd r _ _ | VIdResolve r _ | VNew r _ _ _ | VResolve r _ | VStage r _ _ | VCommit r _ _ _
-              | VPush r | VPull r _ _ | VRemove r _ | VReopen r _ => r end.
+              | VCommitAsNeeded r _ _ _ | VIdCommitAsNeeded r _ | VPush r | VPull r _ _ | VRemove r _ | VReopen r _ => r end.
 
 Section Step.
 Variable V : variant.
@@ -126,6 +132,25 @@ Definition bmerge1 (r : nat) (acc : option (sworld * sub bgit * list mstatus)) (
       end
   end.
 
+(* Commit of the loaded bug m of entity e, which has staged operations: they become one pack on top of the bug's own last commit
+   (the model covers the case where that is the ref); then entityUpdated *)
+Definition commit_loaded (cw : cworld) (r e : nat) (id au : N) (m : ment bgit) : option (cworld * cout) :=
+  let u := ucache_of cw r in
+  match alookup e (locals (ww (gw cw)) r) with
+  | Some h =>
+      if negb (Nat.eqb h (fst (m_base m))) then None else
+      match sstep (gw cw) (ECommit r (Some e) [Pk id au (m_staged m)]) with
+      | Some (sw', ODone) =>
+          match gfb sw' r e with
+          | Some b => Some ({| gw := sw'; iw := iw cw; ucs := set_nth r {| cb := committed b e (cb u); ci := ci u |} (ucs cw) |}, CDone)
+          | None => None
+          end
+      | Some (_, _) => Some (cw, CFail)
+      | None => None
+      end
+  | None => None
+  end.
+
 Definition count_ok {G} (c : sub G) : bool := Nat.eqb (length (si c)) (length (sx c)).
 
 Definition cstep (cw : cworld) (ev : cev) : option (cworld * cout) :=
@@ -174,22 +199,26 @@ Definition cstep (cw : cworld) (ev : cev) : option (cworld * cout) :=
       match kget e (sl (cb u)) with
       | None => Some (cw, CFail)
       | Some m =>
-          if negb (is_dirty m) then Some (cw, CFail) else
-          (* the in-memory entity is committed on top of its own last commit: the model covers the case where that is the ref *)
-          match alookup e (locals (ww (gw cw)) r) with
-          | Some h =>
-              if negb (Nat.eqb h (fst (m_base m))) then None else
-              match sstep (gw cw) (ECommit r (Some e) [Pk id au (m_staged m)]) with
-              | Some (sw', ODone) =>
-                  match gfb sw' r e with
-                  | Some b => Some ({| gw := sw'; iw := iw cw; ucs := set_nth r {| cb := committed b e (cb u); ci := ci u |} (ucs cw) |}, CDone)
-                  | None => None
-                  end
-              | Some (_, _) => Some (cw, CFail)
-              | None => None
-              end
-          | None => None
-          end
+          (* Entity.Commit refuses an entity with no pending operation *)
+          if negb (is_dirty m) then Some (cw, CFail) else commit_loaded cw r e id au m
+      end
+  | VCommitAsNeeded _ e id au =>
+      match kget e (sl (cb u)) with
+      | None => Some (cw, CFail)                        (* entityUpdated: "entity missing from cache" *)
+      | Some m =>
+          if is_dirty m then commit_loaded cw r e id au m
+          else Some (set_uc cw r {| cb := updated e (cb u); ci := ci u |}, CDone)   (* nothing written; entityUpdated all the same *)
+      end
+  | VIdCommitAsNeeded _ k =>
+      let c1 := resolve (v_keep_newest V) cap (gfi (iw cw) r k) k (ci u) in
+      match kget k (sl c1) with
+      | None => Some (set_uc cw r {| cb := cb u; ci := c1 |}, CFail)
+      | Some m =>
+          if is_dirty m then
+            let l' := m_base m ++ m_staged m in
+            Some ({| gw := gw cw; iw := set_iloc (iw cw) r (kins k l' (iloc (iw cw) r));
+                     ucs := set_nth r {| cb := cb u; ci := committed l' k c1 |} (ucs cw) |}, CDone)
+          else Some (set_uc cw r {| cb := cb u; ci := updated k c1 |}, CDone)
       end
   | VPush _ =>
       if ipush_ok (iloc (iw cw) r) (i_rem (iw cw)) then
@@ -398,6 +427,19 @@ Lemma set_nth_nth_id {A} r (l : list A) d : r < length l -> set_nth r (nth r l d
 Proof. revert r. induction l as [|x t IH]; intros r H; cbn in H; [lia|]. destruct r as [|r]; [reflexivity|].
   unfold set_nth in *. cbn. f_equal. apply IH. lia. Qed.
 
+(* the commit of a loaded bug with staged operations *)
+Lemma commit_loaded_CI cw r e id au m cw' out : CI cw -> r < length (ucs cw) ->
+  commit_loaded cw r e id au m = Some (cw', out) -> CI cw'.
+Proof. intros Ic Lr H. pose proof (ci_wi cw Ic) as W. pose proof (ci_bug cw Ic _ Lr) as Ib. pose proof (ci_id cw Ic _ Lr) as Ii.
+  unfold commit_loaded in H.
+  destruct (alookup e (locals (ww (gw cw)) r)) as [h|]; [|discriminate].
+  destruct (negb (Nat.eqb h (fst (m_base m)))); [discriminate|].
+  destruct (sstep (gw cw) (ECommit r (Some e) [Pk id au (m_staged m)])) as [[sw' o]|] eqn:Hs; [|discriminate].
+  destruct (sstep_frame (gw cw) (ECommit r (Some e) [Pk id au (m_staged m)]) sw' o W I Hs) as (W' & Fo & Fe & _). cbn [erep ev_ent] in *.
+  destruct o; try (inversion H; subst; exact Ic).
+  destruct (gfb sw' r e) as [b|] eqn:G; [|discriminate]. inversion H; subst; clear H.
+  apply CI_update; auto; try apply Ic. cbn [cb ci]. apply (inv_committed bgit (gfb (gw cw) r)); auto. Qed.
+
 Theorem cstep_CI cap cw ev cw' out : CI cw -> cstep fixed cap cw ev = Some (cw', out) -> CI cw'.
 Proof.
   intros Ic H. unfold cstep in H.
@@ -405,7 +447,7 @@ Proof.
   pose proof (ci_wi cw Ic) as W. pose proof (ci_bug cw Ic _ Lr) as Ib. pose proof (ci_id cw Ic _ Lr) as Ii.
   pose proof (ci_isorted cw Ic) as Is. pose proof (ci_len cw Ic) as Ln.
   assert (Li : rep_ev ev < length (i_loc (iw cw))) by lia.
-  destruct ev as [r k v|r k v|r k|r id au ops|r e|r e op|r e id au|r|r ims bms|r e|r wipe]; cbn [rep_ev] in *; cbn [v_keep_newest fixed] in H.
+  destruct ev as [r k v|r k v|r k|r id au ops|r e|r e op|r e id au|r e id au|r k|r|r ims bms|r e|r wipe]; cbn [rep_ev] in *; cbn [v_keep_newest fixed] in H.
   - (* new identity *)
     destruct (gfi (iw cw) r k) eqn:G; [discriminate|]. inversion H; subst; clear H.
     apply CI_update; auto.
@@ -439,13 +481,24 @@ Proof.
   - (* commit *)
     destruct (kget e (sl (cb (ucache_of cw r)))) as [m|] eqn:Em; [|inversion H; subst; exact Ic].
     destruct (negb (is_dirty m)); [inversion H; subst; exact Ic|].
-    destruct (alookup e (locals (ww (gw cw)) r)) as [h|]; [|discriminate].
-    destruct (negb (Nat.eqb h (fst (m_base m)))); [discriminate|].
-    destruct (sstep (gw cw) (ECommit r (Some e) [Pk id au (m_staged m)])) as [[sw' o]|] eqn:Hs; [|discriminate].
-    destruct (sstep_frame (gw cw) (ECommit r (Some e) [Pk id au (m_staged m)]) sw' o W I Hs) as (W' & Fo & Fe & _). cbn [erep ev_ent] in *.
-    destruct o; try (inversion H; subst; exact Ic).
-    destruct (gfb sw' r e) as [b|] eqn:G; [|discriminate]. inversion H; subst; clear H.
-    apply CI_update; auto; try apply Ic. cbn [cb ci]. apply (inv_committed bgit (gfb (gw cw) r)); auto.
+    exact (commit_loaded_CI cw r e id au m cw' out Ic Lr H).
+  - (* commit as needed *)
+    destruct (kget e (sl (cb (ucache_of cw r)))) as [m|] eqn:Em; [|inversion H; subst; exact Ic].
+    destruct (is_dirty m); [exact (commit_loaded_CI cw r e id au m cw' out Ic Lr H)|].
+    inversion H; subst; clear H. apply CI_cache_only; auto. cbn [cb]. now apply inv_updated.
+  - (* identity: commit as needed *)
+    set (c1 := resolve true cap (gfi (iw cw) r k) k (ci (ucache_of cw r))) in *.
+    assert (I1 : inv (gfi (iw cw) r) c1) by (apply inv_resolve; exact Ii).
+    destruct (kget k (sl c1)) as [m|] eqn:Em; [|inversion H; subst; clear H; now apply CI_cache_only].
+    destruct (is_dirty m).
+    + inversion H; subst; clear H. apply CI_update; auto.
+      * apply (inv_committed igit (gfi (iw cw) r)); [exact I1| |]; unfold gfi; rewrite iloc_set_same by exact Li; intros; rewrite kget_kins.
+        -- destruct (Nat.eqb_spec e' k); [congruence|reflexivity].
+        -- now rewrite Nat.eqb_refl.
+      * intros r' Hne. now apply iloc_set_other.
+      * rewrite iloc_set_same by exact Li. now apply ksorted_kins.
+      * cbn. now apply length_set_nth.
+    + inversion H; subst; clear H. apply CI_cache_only; auto. cbn [ci]. now apply inv_updated.
   - (* push *)
     destruct (ipush_ok _ _); [|inversion H; subst; exact Ic].
     destruct (sstep (gw cw) (EPush r)) as [[sw' o]|] eqn:Hs; [|discriminate].
@@ -572,6 +625,16 @@ Proof. intros W Hs. pose proof (wi_ww sw W) as WWw. cbn [sstep] in Hs.
   - cbn [step] in S2. destruct (nth_error (reps w1) r); [|discriminate]. destruct (negb _); [discriminate|]. inversion S2; subst. cbn [st].
     rewrite Est. unfold parents. rewrite nth_error_app2, Nat.sub_diag by lia. reflexivity. Qed.
 
+Lemma commit_loaded_child cw r e id au m cw' : WI (gw cw) -> commit_loaded cw r e id au m = Some (cw', CDone) ->
+  exists h, fst (m_base m) = h /\ alookup e (locals (ww (gw cw)) r) = Some h /\ alookup e (locals (ww (gw cw')) r) = Some (length (st (ww (gw cw)))) /\ parents (st (ww (gw cw'))) (length (st (ww (gw cw)))) = [h].
+Proof. intros W Hs. unfold commit_loaded in Hs.
+  destruct (alookup e (locals (ww (gw cw)) r)) as [h|] eqn:El; [|discriminate].
+  destruct (Nat.eqb_spec h (fst (m_base m))) as [Eh|]; cbn [negb] in Hs; [|discriminate].
+  destruct (sstep (gw cw) (ECommit r (Some e) [Pk id au (m_staged m)])) as [[sw' o]|] eqn:Ss; [|discriminate].
+  destruct o; try discriminate. destruct (gfb sw' r e) as [b|]; [|discriminate]. inversion Hs; subst cw'; clear Hs. cbn [gw].
+  destruct (sstep_commit_child _ _ _ _ _ _ _ W Ss) as (h' & A & B & C). rewrite El in A. inversion A; subst h'.
+  exists h. auto. Qed.
+
 Theorem C11_commit_is_child_of_loaded_head n cap evs cw r e id au cw' : crun fixed cap (cw0 n) evs = Some cw ->
   cstep fixed cap cw (VCommit r e id au) = Some (cw', CDone) ->
   exists h m, kget e (sl (cb (ucache_of cw r))) = Some m /\ fst (m_base m) = h /\ alookup e (locals (ww (gw cw)) r) = Some h /\ alookup e (locals (ww (gw cw')) r) = Some (length (st (ww (gw cw)))) /\ parents (st (ww (gw cw'))) (length (st (ww (gw cw)))) = [h].
@@ -579,13 +642,35 @@ Proof. intros H Hs. pose proof (crun_CI cap evs _ _ (CI_cw0 n) H) as Ic. pose pr
   unfold cstep in Hs. cbn [rep_ev] in Hs. destruct (negb (Nat.ltb r (length (ucs cw)))); [discriminate|].
   destruct (kget e (sl (cb (ucache_of cw r)))) as [m|] eqn:Em; [|discriminate].
   destruct (negb (is_dirty m)); [discriminate|].
-  destruct (alookup e (locals (ww (gw cw)) r)) as [h|] eqn:El; [|discriminate].
-  destruct (Nat.eqb_spec h (fst (m_base m))) as [Eh|]; cbn [negb] in Hs; [|discriminate].
-  destruct (sstep (gw cw) (ECommit r (Some e) [Pk id au (m_staged m)])) as [[sw' o]|] eqn:Ss; [|discriminate].
-  destruct o; try discriminate. destruct (gfb sw' r e) as [b|]; [|discriminate]. inversion Hs; subst cw'; clear Hs. cbn [gw].
-  destruct (sstep_commit_child _ _ _ _ _ _ _ W Ss) as (h' & A & B & C). rewrite El in A. inversion A; subst h'.
-  exists h, m. auto. Qed.
+  destruct (commit_loaded_child _ _ _ _ _ _ _ W Hs) as (h & A & B & C & D). exists h, m. auto. Qed.
 Print Assumptions C11_commit_is_child_of_loaded_head.
+
+(* CommitAsNeeded (what the terminal UI and the bridge exporters save with): with staged operations it is Commit; with nothing staged
+   it succeeds, writes nothing to git and changes nothing of what the cache serves: the excerpt and the index document recomputed by
+   entityUpdated are the ones already there (only the LRU order moves) *)
+Lemma kins_same {A} e (v : A) m : ksorted m -> kget e m = Some v -> kins e v m = m.
+Proof. intros S H. apply ksorted_ext; [now apply ksorted_kins|exact S|]. intros e'. rewrite kget_kins. destruct (Nat.eqb_spec e' e) as [->|]; congruence. Qed.
+
+Lemma ucache_of_set_uc_same cw r u : r < length (ucs cw) -> ucache_of (set_uc cw r u) r = u.
+Proof. intros H. unfold ucache_of, set_uc. cbn [ucs]. now apply (ucache_of_set_same cw r u _ H eq_refl). Qed.
+
+Theorem C11_commit_as_needed n cap evs cw r e id au m : crun fixed cap (cw0 n) evs = Some cw -> r < length (ucs cw) ->
+  kget e (sl (cb (ucache_of cw r))) = Some m ->
+  (is_dirty m = true -> cstep fixed cap cw (VCommitAsNeeded r e id au) = cstep fixed cap cw (VCommit r e id au)) /\
+  (is_dirty m = false -> exists cw', cstep fixed cap cw (VCommitAsNeeded r e id au) = Some (cw', CDone) /\ gw cw' = gw cw /\ iw cw' = iw cw /\
+     sx (cb (ucache_of cw' r)) = sx (cb (ucache_of cw r)) /\ si (cb (ucache_of cw' r)) = si (cb (ucache_of cw r)) /\
+     sl (cb (ucache_of cw' r)) = sl (cb (ucache_of cw r)) /\ ci (ucache_of cw' r) = ci (ucache_of cw r) /\
+     forall r', r' <> r -> ucache_of cw' r' = ucache_of cw r').
+Proof. intros H Lr Em. pose proof (crun_CI cap evs _ _ (CI_cw0 n) H) as Ic. pose proof (ci_bug cw Ic r Lr) as Ib.
+  unfold cstep. cbn [rep_ev]. destruct (Nat.ltb_spec r (length (ucs cw))) as [_|]; [|lia]. cbn [negb]. rewrite Em. split; intros D; rewrite D; cbn [negb]; [reflexivity|].
+  eexists. split; [reflexivity|]. split; [reflexivity|]. split; [reflexivity|].
+  rewrite ucache_of_set_uc_same by exact Lr. cbn [cb ci]. unfold updated. rewrite Em. cbn [sx si sl].
+  destruct Ib as [A B C S1 S2]. pose proof (C e m Em) as Ge.
+  assert (V : view (gfb (gw cw) r) (cb (ucache_of cw r)) e = Some m) by (unfold view; now rewrite Ge, Em).
+  split; [apply kins_same; [exact S1|now rewrite A]|]. split; [apply kins_same; [exact S2|now rewrite B]|]. split; [reflexivity|]. split; [reflexivity|].
+  intros r' Hne. unfold ucache_of, set_uc. cbn [ucs]. now apply (ucache_of_set_other cw r r' _ _ Lr eq_refl). Qed.
+Print Assumptions C11_commit_as_needed.
+
 
 (* ---------------- the code as found: concrete sessions ending in a quiescent, incoherent state ---------------- *)
 Definition quiescentb_at (cw : cworld) (r : nat) : bool := quiescentb (cb (ucache_of cw r)) && quiescentb (ci (ucache_of cw r)).
@@ -653,3 +738,19 @@ Example pull_over_staged_runs_fixed :
   (exists cw, crun fixed 2 (cw0 2) (witness_pull_over_staged ++ [VResolve 1 0; VStage 1 0 202%N; VCommit 1 0 12%N 2%N]) = Some cw /\
               gfb (gw cw) 1 0 = Some (2, [100%N; 101%N; 202%N]) /\ parents (st (ww (gw cw))) 2 = [1]).
 Proof. split; (eexists; split; [vm_compute; reflexivity|]; repeat split; vm_compute; reflexivity). Qed.
+
+(* saving with CommitAsNeeded: two bugs, the older one is edited and saved with CommitAsNeeded (one commit, child of its head), then
+   CommitAsNeeded again with nothing staged on the bug and on the identity: success, nothing written, same excerpts *)
+Definition witness_commit_as_needed : list cev :=
+  [VIdNew 0 0 1%N; VNew 0 10%N 1%N [100%N]; VNew 0 11%N 1%N [102%N]; VResolve 0 0; VStage 0 0 101%N; VCommitAsNeeded 0 0 12%N 1%N].
+Example commit_as_needed_runs_fixed :
+  (exists cw, crun fixed 2 (cw0 2) witness_commit_as_needed = Some cw /\ quiescentb_at cw 0 = true /\
+              gfb (gw cw) 0 0 = Some (2, [100%N; 101%N]) /\ parents (st (ww (gw cw))) 2 = [0] /\
+              kget 0 (sx (cb (ucache_of cw 0))) = Some (clean (2, [100%N; 101%N])) /\
+              exists cw', cstep fixed 2 cw (VCommitAsNeeded 0 0 0%N 0%N) = Some (cw', CDone) /\ gw cw' = gw cw /\
+                          sx (cb (ucache_of cw' 0)) = sx (cb (ucache_of cw 0)) /\
+                          exists cw'', cstep fixed 2 cw' (VIdCommitAsNeeded 0 0) = Some (cw'', CDone) /\ iw cw'' = iw cw /\
+                                       sx (ci (ucache_of cw'' 0)) = sx (ci (ucache_of cw 0))).
+Proof. eexists. split; [vm_compute; reflexivity|]. repeat split; try (vm_compute; reflexivity).
+  eexists. split; [vm_compute; reflexivity|]. repeat split; try (vm_compute; reflexivity).
+  eexists. split; [vm_compute; reflexivity|]. split; vm_compute; reflexivity. Qed.
